@@ -599,9 +599,12 @@ func main() {
 		return
 	}
 	r := core.NewResult(prop, "model_checking")
-	r.Rule = "Part A: BFS over operation sequences (AddTx/AddTxs/GetTxs/DelTxs over t1,t2,t3,u1,u2,box(u1,u2),box(u1,t3); capacity 2; expirations 10/20; selection times 5/15/25, sizes 1/2/9) on the real TxPool against a set model; state = pool dump + model. Part B: 8 thread scenarios under the controlled scheduler, all interleavings up to the preemption bound, points at the pool mutex and at every read/write of txs/hashIndexMap/cap; linearizability by brute force; distinct outcome = (scenario, results, final pool)"
-	r.Assume = []string{"order of GetTxs results is not asserted", "AddTx refusing a transaction is never a violation (the statement does not demand acceptance), except AddTxs accepting fewer than the non-conflicting ones, which the count cannot attribute"}
-	// part C (worker processes) runs next to parts A and B (this process)
+	r.Rule = "Part A: BFS over operation sequences (AddTx/AddTxs/GetTxs/DelTxs over t1,t2,t3,u1,u2,box(u1,u2),box(u1,t3); capacity 2; expirations 10/20; selection times 5/15/25, sizes 1/2/9) on the real TxPool against a set model; state = pool dump + model. Part B: 8 thread scenarios under the controlled scheduler, all interleavings up to the preemption bound, points at the pool mutex and at every read/write of txs/hashIndexMap/cap; linearizability by brute force; distinct outcome = (scenario, results, final pool). Part C: nested enumeration, every case on a fresh real node (BlockChain + DPoVP + TxPool + TxGuard, 3 deputies, pool capacity 2): two branches of factory-built blocks (depth 1..3 each, plus new depth 4 / 5 for the longer-fork rule; forking at the stable block or at an unconfirmed block above it; optionally an empty third branch that wins at the end) x delivery orders (quick: one branch after the other, alternating; thorough: every order-preserving interleaving) x confirm packets that make a block of one branch stable (end of the schedule; thorough also right after the block and attached to the block) x placements of t1 / box b=(u1,u2) / u1 / t2 / early-expiring e (thorough also b2=(u1,t3), u2, t3) in {a block of X, a block of Y, one of each, the common block, pool only: submitted through VerifyTxBody + TxGuard.ExistTx + AddTx before the first or after the last event} x {learned from blocks only, submitted first}; and the node as deputy 0 mining its own branch from its pool against a foreign branch, then mining again after the switch. The oracle follows the node's head after every event; distinct outcome of part C = (mode, switch mechanism, old depth, new depth, per transaction: placement class, kind, pooled or absent)"
+	r.Assume = []string{"order of GetTxs results is not asserted", "AddTx refusing a transaction is never a violation (the statement does not demand acceptance), except AddTxs accepting fewer than the non-conflicting ones, which the count cannot attribute",
+		"part C: 'on a fork' for a box and its sub-transactions is what the node's TxGuard.ExistTx answers (a sub-transaction is on a fork when a box that carries it is, and the other way round); identity and box overlap have separate fingerprints",
+		"part C: the clause is asserted when the head moves to a block that does not descend from the previous head, for the blocks between the two heads and their common ancestor; an abandoned transaction counts as contained when it or a transaction that excludes it (its box / its sub-transaction) is pending; transactions expired at the node's clock (latest block time seen) are not demanded",
+		"part C: what a switch put back and what the node accepted itself must stay pending until it is on the current branch or expired (first sentence of the statement); what the pool holds after a block landed on a non-current fork without a switch, and transactions of the common prefix, are counted, not asserted",
+		"part C: the transaction entry is the three steps that main/node/api.go SendTx and network/protocol_manager.go handleTxsMsg share; the engine's notification goroutines are dropped (source overlay), the engine's clock is the harness's"}
 	parts := os.Getenv("VERIF_C18_PARTS") // development aid: run a subset of the parts (default: all)
 	if parts == "" {
 		parts = "ABC"
